@@ -62,7 +62,8 @@ def discharged : List (String × String × String × String) := [
   ("taskfile:Snippet.String", "index", "‹*taskfile.Snippet›.linesRaw[‹int›]", "loop: i ranges over linesHighlighted, which has the same length (both sliced with the same bounds)"),
   ("taskfile:getScheme", "index", "strings.Split(‹*url.URL›.Path, \"//\")[0]", "split: element 0 always exists"),
   ("taskfile:getScheme", "slice", "‹string›[:‹int›]", "guard: i := strings.Index(uri, \"://\"); i != -1"),
-  ("taskfile:init", "panic", "panic(‹error›)", "init: chroma style registration with a constant definition")]
+  ("taskfile:init", "panic", "panic(‹error›)", "init: chroma style registration with a constant definition"),
+  ("task:Executor.runDeferred", "unchecked", "‹*task.Executor›.Compiler.GetVariables(‹*ast.Task›, ‹*task.Call›)", "repeat: runDeferred is only reached from RunTask after CompiledTask(call) succeeded, which ran the same GetVariables(origTask, call); the evaluation is deterministic given the dynamic-variable cache (sh: results are cached by directory and command text), so the error branch is not taken and the pointer is non-nil (Vars.ToCacheMap itself is NOT nil-safe)")]
 
 def isDischarged (s : String × String × String) : Bool :=
   discharged.any (fun d => d.1 == s.1 && d.2.1 == s.2.1 && d.2.2.1 == s.2.2)
